@@ -636,6 +636,84 @@ fn stack_and_neighbours_probe(rep: &mut Report) {
     }
 }
 
+/// Failures of every kind leave nothing behind: a typed value whose conversion is refused half-way
+/// (a refusing map key, a refusing element), a custom function that panics (caught by the caller) or
+/// returns an error — after each, the same thread's next calls are what they would have been anyway.
+fn after_failures_probe(rep: &mut Report) {
+    use serde::Serialize;
+    #[derive(PartialEq, Eq, PartialOrd, Ord)]
+    struct RefusingKey(u8);
+    impl Serialize for RefusingKey {
+        fn serialize<S: serde::Serializer>(&self, _: S) -> Result<S::Ok, S::Error> {
+            Err(serde::ser::Error::custom("refused"))
+        }
+    }
+    struct Refuses;
+    impl Serialize for Refuses {
+        fn serialize<S: serde::Serializer>(&self, _: S) -> Result<S::Ok, S::Error> {
+            Err(serde::ser::Error::custom("refused"))
+        }
+    }
+    let mut rt = Runtime::new();
+    rt.register_builtin_functions();
+    rt.register_function(
+        "isqrt",
+        Box::new(jmespath::functions::CustomFunction::new(
+            jmespath::functions::Signature::new(vec![jmespath::functions::ArgumentType::Number], None),
+            Box::new(|a: &[Rcvar], _: &mut Context<'_>| {
+                let n = a[0].as_number().unwrap_or(0.0);
+                if n < 0.0 {
+                    panic!("isqrt of a negative number");
+                }
+                Ok(Rcvar::new(jmespath::Variable::Number(serde_json::Number::from(n.sqrt() as u64))))
+            }),
+        )),
+    );
+    let probes: Vec<(&str, Value, &str)> = vec![
+        ("max(@)", json!([3, 1, 2]), "ok:3"),
+        ("[?@ > `1`]", json!([3, 1, 2]), "ok:[3,2]"),
+        ("sum(@)", json!([3, 1, 2]), "ok:6.0"),
+        ("@", json!(7), "ok:7"),
+        ("{a: @[0], b: length(@)}", json!([3, 1, 2]), "ok:{\"a\":3,\"b\":3}"),
+        ("isqrt(n)", json!({"n": 16}), "ok:4"),
+        ("sort_by(@, &isqrt(n))[0].n", json!([{"n": 16}, {"n": 4}]), "ok:4"),
+    ];
+    let check = |rep: &mut Report, after: &str| {
+        for (text, doc, want) in probes.iter() {
+            rep.evaluations += 1;
+            // typed inputs (serde path) and library values
+            let got_typed = guarded(|| rt.compile(text).and_then(|e| e.search(doc.clone()))).map(|r| fingerprint(&r)).unwrap_or_else(|p| format!("panic:{}", p));
+            let got_rc = guarded(|| rt.compile(text).and_then(|e| e.search(rcvar_of(doc)))).map(|r| fingerprint(&r)).unwrap_or_else(|p| format!("panic:{}", p));
+            if got_typed == *want && got_rc == *want {
+                rep.count("nothing_left_behind_by_failures");
+            } else {
+                rep.violation(
+                    "C13/result-depends-on-history/after-a-failed-call",
+                    json!({"expression": text, "document": doc, "evaluated_after": after, "expected": want, "typed_input": got_typed, "library_value_input": got_rc}),
+                );
+            }
+        }
+    };
+    check(rep, "nothing (start of the probe)");
+    let ident = rt.compile("@").unwrap();
+    for round in 0..3 {
+        let bad_key: std::collections::BTreeMap<RefusingKey, i32> = vec![(RefusingKey(1), 2)].into_iter().collect();
+        let _ = guarded(|| ident.search(&bad_key).is_err());
+        check(rep, "a search over a map whose key refuses to serialise");
+        let _ = guarded(|| ident.search(vec![vec![(1, Refuses)]]).is_err());
+        check(rep, "a search over a value that refuses three levels down");
+        let r = guarded(|| rt.compile("isqrt(n)").and_then(|e| e.search(rcvar_of(&json!({"n": -16})))));
+        if r.is_ok() {
+            rep.violation("C13/harness", json!({"problem": "the panicking custom function did not panic", "round": round}));
+        }
+        check(rep, "a custom function that panicked (caught by the caller)");
+        let _ = guarded(|| rt.compile("sort_by(@, &isqrt(n))").and_then(|e| e.search(rcvar_of(&json!([{"n": 4}, {"n": -1}, {"n": 9}])))));
+        check(rep, "a custom function that panicked inside sort_by");
+        let _ = guarded(|| rt.compile("isqrt('x')").and_then(|e| e.search(rcvar_of(&json!(null)))));
+        check(rep, "a custom function call rejected by its signature");
+    }
+}
+
 pub fn run(args: &Args) {
     let mut rep = Report::new("C13");
     // first library use of this process: nothing has touched any runtime yet
@@ -647,6 +725,9 @@ pub fn run(args: &Args) {
     bare_runtime_probe(&mut rep, "after another thread used the default runtime");
     if args.shard == 0 {
         stack_and_neighbours_probe(&mut rep);
+    }
+    if args.shard == 1 % args.shards {
+        after_failures_probe(&mut rep);
     }
     gap_sweep(&mut rep, args);
     family_sweep(&mut rep, args);
